@@ -12,6 +12,9 @@ EXPLANATION = (
     "handle; (R6) Timeout polls the value before the delay and maps value-ready to Ok; (R7) Interval returns the old deadline "
     "and re-arms to deadline+period or the missed-tick result. "
     '(R7 per path: an on-time tick is re-armed at its own deadline + period — never relative to `now` — and a missed tick by the configured MissedTickBehavior from (deadline, now, period), whose table Burst/Delay/Skip is checked row by row; R1 also: the yield of bump is lossless — every popped waker is woken.) '
+    "(R8) deadline provenance: the Sleep behind sleep/timeout carries now + the given duration (the far future on overflow), the one behind "
+    "sleep_until/timeout_at/interval_at the given instant, interval starts at now and keeps the given period, Sleep::reset stores the new "
+    "deadline on every path and Interval::reset re-arms at now + period. "
     "Decides these necessary conditions only; not firing instants over programs.")
 ASSUMPTIONS = ["VecDeque::binary_search_by/insert keep the pending list sorted by time", "wakers wake their tasks (tokio)"]
 
@@ -659,6 +662,175 @@ def r7_interval(ctx):
     ctx.check(bool(polls) and f.dominates(polls[0].b, s.b), 'wait-then-rearm', 'the interval waits for its delay before re-arming', s.where())
 
 
+TMOD = 'des::time::'
+_PIN_WRAP = ('std::boxed::Box::pin', 'std::boxed::Box::new', 'std::pin::Pin::new', 'std::pin::Pin::new_unchecked', 'std::pin::pin')
+
+
+def _subst_args(t, actuals):
+    if isinstance(t, tuple):
+        if t and t[0] == 'arg' and isinstance(t[1], int) and 1 <= t[1] <= len(actuals):
+            return actuals[t[1] - 1]
+        return tuple(_subst_args(x, actuals) if isinstance(x, tuple) else x for x in t)
+    return t
+
+
+def _agg_field(t, name):
+    if t[0] == 'agg' and len(t) > 3 and name in t[3]:
+        return t[2][list(t[3]).index(name)]
+    return None
+
+
+def _apply_fn(fn, args):
+    fn = peel(fn)
+    if fn[0] == 'fnitem':
+        return ('call', fn[1], tuple(args), -1)
+    return None
+
+
+def _deadlines(ctx, t, depth=0):
+    """the deadline operands of every Sleep a timer-valued tree can denote: calls into des::time constructors are replaced by what the
+    callee returns on each of its paths (actual arguments substituted); a Timeout / Interval denotes the Sleep in its `delay`"""
+    P = ctx.P
+    t = peel(t)
+    if depth > 6:
+        return [('unknown', t)]
+    if t[0] == 'call' and t[1] in _PIN_WRAP and t[2]:
+        return _deadlines(ctx, t[2][0], depth + 1)
+    if t[0] == 'agg':
+        if str(t[1]).endswith('sleep::Sleep::Sleep'):
+            d = _agg_field(t, 'deadline')
+            return [d if d is not None else ('unknown', t)]
+        d = _agg_field(t, 'delay')
+        if d is not None:
+            return _deadlines(ctx, d, depth + 1)
+        return [('unknown', t)]
+    if t[0] == 'call':
+        last = t[1].split('::')[-1]
+        if 'option::Option' in t[1] and last == 'map_or_else' and len(t[2]) == 3:
+            a, b = _apply_fn(t[2][1], ()), _apply_fn(t[2][2], (('field', ('as', t[2][0], 'Some'), '0'),))
+            if a and b:
+                return _deadlines(ctx, a, depth + 1) + _deadlines(ctx, b, depth + 1)
+        if 'option::Option' in t[1] and last == 'map_or' and len(t[2]) == 3:
+            b = _apply_fn(t[2][2], (('field', ('as', t[2][0], 'Some'), '0'),))
+            if b:
+                return _deadlines(ctx, t[2][1], depth + 1) + _deadlines(ctx, b, depth + 1)
+        if 'option::Option' in t[1] and last in ('unwrap_or_else', 'unwrap_or') and len(t[2]) == 2:
+            inner = peel(t[2][0])
+            other = _apply_fn(t[2][1], ()) if last == 'unwrap_or_else' else t[2][1]
+            if inner[0] == 'call' and inner[1].endswith('Option::map') and len(inner[2]) == 2 and other:
+                b = _apply_fn(inner[2][1], (('field', ('as', inner[2][0], 'Some'), '0'),))
+                if b:
+                    return _deadlines(ctx, other, depth + 1) + _deadlines(ctx, b, depth + 1)
+        g = P.fns.get(t[1])
+        if g is not None and t[1].startswith(TMOD) and g.kind != 'closure':
+            out = []
+            for path, outcome, decs in fn_paths(ctx, g):
+                if outcome != 'return':
+                    continue
+                r = path_ret_resolved(g, path)
+                if r is None:
+                    out.append(('unknown', t)); continue
+                out += _deadlines(ctx, _subst_args(r, t[2]), depth + 1)
+            return out or [('unknown', t)]
+    return [('unknown', t)]
+
+
+def r8_deadline_provenance(ctx):
+    """a timer waits for the deadline it was asked for: the Sleep behind sleep/sleep_until/timeout/timeout_at/interval/interval_at carries
+    exactly the requested instant (now + duration, saturating to the far future; or the given instant), and resetting stores the new one"""
+    ctx.set_rule('C05.R8')
+    P = ctx.P
+    is_now = lambda x: peel(x)[0] == 'call' and peel(x)[1] == NOW
+    is_arg = lambda n: (lambda x: peel(x)[0] == 'arg' and peel(x)[1] == n)
+    is_max = lambda x: peel(x)[0] in ('constdef', 'const') and str(peel(x)[1]).endswith('SimTime::MAX')
+
+    def is_checked(x, dur):
+        x = peel(x)
+        if not (x[0] == 'field' and x[2] == '0' and x[1][0] == 'as' and x[1][2] == 'Some'):
+            return False
+        c = peel(x[1][1])
+        return c[0] == 'call' and c[1].endswith('::checked_add') and len(c[2]) == 2 and is_now(c[2][0]) and dur(c[2][1])
+
+    def is_sum(x, a, b):
+        x = peel(x)
+        return x[0] == 'call' and x[1].endswith('::add') and len(x[2]) == 2 and a(x[2][0]) and b(x[2][1])
+
+    REL = 'now + the given duration (the far future if that overflows)'
+    TABLE = [  # constructor, accepted deadline forms, required forms, text
+        ('sleep::sleep', [lambda x: is_checked(x, is_arg(1)), is_max], 1, REL),
+        ('sleep::sleep_until', [is_arg(1)], 1, 'the given instant'),
+        ('timeout::timeout', [lambda x: is_checked(x, is_arg(1)), is_max], 1, REL),
+        ('timeout::timeout_at', [is_arg(1)], 1, 'the given instant'),
+        ('interval::interval', [is_now], 1, 'now (the first tick completes immediately)'),
+        ('interval::interval_at', [is_arg(1)], 1, 'the given start instant'),
+    ]
+    for name, forms, need, text in TABLE:
+        f = ctx.anchor(TMOD + name)
+        if not f:
+            continue
+        ctx.touch(f)
+        ds = []
+        n = 0
+        for path, outcome, decs in fn_paths(ctx, f):
+            if outcome != 'return':
+                continue
+            n += 1
+            r = path_ret_resolved(f, path)
+            ds += _deadlines(ctx, r, 0) if r is not None else [('unknown',)]
+        if not ctx.floor('returning paths of ' + name, n, 1):
+            continue
+        bad = [d for d in ds if not any(p(d) for p in forms)]
+        first = any(forms[0](d) for d in ds)
+        ctx.check(not bad and first, 'deadline:%s' % name.split('::')[-1], '%s waits for %s' % (name.split('::')[-1], text), f.where(),
+                  [show(d)[:160] for d in (bad or ds)][:4])
+    # the interval keeps the period it was given
+    for name, idx in (('interval::interval', 1), ('interval::interval_at', 2)):
+        f = P.fns.get(TMOD + name)
+        if f is None:
+            continue
+        per = []
+        for path, outcome, decs in fn_paths(ctx, f):
+            if outcome != 'return':
+                continue
+            r = peel(path_ret_resolved(f, path) or ('unknown',))
+            depth = 0
+            while r[0] == 'call' and r[1].startswith(TMOD) and P.fns.get(r[1]) is not None and depth < 4:
+                g = P.fns[r[1]]
+                rts = [path_ret_resolved(g, p2) for p2, o2, _ in fn_paths(ctx, g) if o2 == 'return']
+                if len(rts) != 1 or rts[0] is None:
+                    break
+                r = peel(_subst_args(rts[0], r[2])); depth += 1
+            v = _agg_field(r, 'period') if r[0] == 'agg' else None
+            per.append(v)
+        ctx.check(bool(per) and all(v is not None and is_arg(idx)(v) for v in per), 'period:%s' % name.split('::')[-1],
+                  '%s ticks with the period it was given' % name.split('::')[-1], f.where(), [show(v)[:120] if v else None for v in per][:3])
+    # resetting: Sleep::reset stores the instant it is given; Interval::reset* re-arm relative to now / at the given instant
+    sc = P.scope_of(SLEEP + '::reset_inner') or P.scope_of(SLEEP + '::reset')
+    if ctx.floor('function storing a reset deadline (Sleep::reset_inner)', len(sc), 1):
+        f = sc[0]
+        ctx.touch(f)
+        ws = f.writes_to_field('deadline')
+        okw = [w for w in ws if f.postdominates_entry(w[0]) and not f.loops_containing(w[0]) and
+               peel(f.expr_rvalue(w[2]['r'], w[0], w[1]))[0] == 'arg' and peel(f.expr_rvalue(w[2]['r'], w[0], w[1]))[2] == 'deadline']
+        ctx.check(len(okw) >= 1 and len(okw) == len(ws), 'reset-stores-deadline', 'Sleep::reset stores exactly the new deadline, on every path', f.where(),
+                  [show(f.expr_rvalue(w[2]['r'], w[0], w[1]))[:100] for w in ws])
+    IV = TMOD + 'interval::Interval::'
+    RESETS = [('reset', lambda x: is_sum(x, is_now, lambda y: peel(y)[0] == 'field' and peel(y)[2] == 'period'), 'now + period'),
+              ('reset_immediately', is_now, 'now'),
+              ('reset_after', lambda x: is_sum(x, is_now, is_arg(2)), 'now + the given duration'),
+              ('reset_at', is_arg(2), 'the given instant')]
+    for m, pred, text in RESETS:
+        f = P.fns.get(IV + m)
+        if f is None:
+            continue    # not every reset flavour exists in every version of the API
+        ctx.touch(f)
+        rs = f.calls_to(SLEEP + '::reset')
+        if not ctx.floor('Sleep::reset in Interval::%s' % m, len(rs), 1):
+            continue
+        ok = all(pred(f.expr_operand(s.args[1], s.b, 'T')) for s in rs) and any(f.postdominates_entry(s.b) for s in rs)
+        ctx.check(ok, 'interval-%s' % m, 'Interval::%s re-arms the interval at %s' % (m, text), rs[0].where(), [show(f.expr_operand(s.args[1], s.b, 'T'))[:120] for s in rs])
+
+
 def run(ctx):
     r1_next_wakeup(ctx)
     r2_ready_wake_agreement(ctx)
@@ -667,3 +839,4 @@ def run(ctx):
     r5_registration(ctx)
     r6_timeout_order(ctx)
     r7_interval(ctx)
+    r8_deadline_provenance(ctx)
